@@ -30,7 +30,7 @@ EXHAUSTIVE_SUBDOMAINS = []
 ASSUMPTIONS = ["positions are judged only for the simulated (cleanly encoded) aircraft; noise addresses are judged for robustness, "
                "listing and the Comm-B rule only", "between 59 s and 61 s of silence neither presence nor absence is judged",
                "longitude compared modulo 360; error measured as great-circle angle"]
-REQUIRED = ["calls", "same_squitter_string_repeated", "aircraft_exactly_over_pole_equator_antimeridian", "idle_call_with_no_messages", "batch_processed_at_tnow_exactly_zero", "transitions", "branch_ref", "branch_global", "branch_none", "evicted", "reappeared", "commb_attached", "commb_unknown_ignored",
+REQUIRED = ["calls", "receiver_location_given_as_strings", "same_squitter_string_repeated", "aircraft_exactly_over_pole_equator_antimeridian", "idle_call_with_no_messages", "batch_processed_at_tnow_exactly_zero", "transitions", "branch_ref", "branch_global", "branch_none", "evicted", "reappeared", "commb_attached", "commb_unknown_ignored",
             "surface_update", "airborne_update", "case_compare", "run_loop", "gap_lt10", "gap_10_180", "gap_gt180", "cross_antimeridian",
             "cross_equator", "cross_nl", "second_tracker_alive"]
 
@@ -301,6 +301,23 @@ def canon(rec):
     return out
 
 
+def rx_form(ctx, hist):
+    """the receiver location in one of the forms a caller hands it over in: a list or tuple of floats, a numpy array, or the
+    two STRINGS the shipped viewer passes on from its command line (--latlon LAT LON is parsed without a type); repr() of a
+    float reads back to the same float, so the position the tracker works with is the same in every form"""
+    rx = hist["rx"]
+    k = (len(hist["events"]) + int(abs(rx[0]) * 1000)) % 4
+    if k == 1:
+        ctx.hit("receiver_location_given_as_strings")
+        return [repr(float(rx[0])), repr(float(rx[1]))]
+    if k == 2:
+        return (float(rx[0]), float(rx[1]))
+    if k == 3:
+        import numpy as np
+        return np.array([rx[0], rx[1]], dtype=float)
+    return rx
+
+
 def play(ctx, hist, lower=False, judge=True):
     """feed the history; returns (final table, ok)"""
     Decode = get_decode()
@@ -309,7 +326,7 @@ def play(ctx, hist, lower=False, judge=True):
     if hist.get("dumpto"):
         import tempfile
         dump = tempfile.mkdtemp(prefix="pmv-dump-")
-    d = Decode(latlon=hist["rx"], dumpto=dump) if hist["rx"] else Decode(dumpto=dump)
+    d = Decode(latlon=rx_form(ctx, hist), dumpto=dump) if hist["rx"] else Decode(dumpto=dump)
     try:
         return _play(ctx, hist, d, lower, judge)
     finally:
@@ -595,7 +612,7 @@ def m_runloop(ctx, case):
             if len(self.items) > 50:
                 raise Stop()
 
-    d = Decode(latlon=hist["rx"]) if hist["rx"] else Decode()
+    d = Decode(latlon=rx_form(ctx, hist)) if hist["rx"] else Decode()
     seen = []
     orig = d.process_raw
 
